@@ -47,6 +47,12 @@ def extract(ctx):
 def decode(p):
     f = p.split(" ")
     try:
+        if f[0] == "seq":
+            first = {"-": "target does not exist"}.get(f[1]) or (
+                "target exists as an unrelated file of %s bytes" % f[1][2:] if f[1].startswith("F:") else
+                "first packed: project tree %s onto a binary of %s bytes" % (f[1].split(":")[3], f[1].split(":")[1]))
+            return {"sequence": first, "target_mode_before": f[2], "then_packed": "project tree %s onto a binary of %s bytes (-1 = the real CLI)" % (f[5], f[3]),
+                    "entry_returns": int(f[6]), "also_started_as_process": f[7] == "1"}
         if f[0] == "proc":
             return {"real_executable": "CLI of the tree under test, packed with project tree %s" % f[1], "entry_returns": int(f[2]),
                     "command_line": [] if f[3] == "-" else [bytes.fromhex(x).decode("latin1") for x in f[3].split(",")]}
@@ -73,7 +79,8 @@ SPEC = dict(
           "[0, 3*max(bufSize, b1+b2)+2|marker|+8] (thorough: 6*) (geometry regenerated from pack.go) x 3 fillers; every proper prefix of the "
           "marker and every one-byte-changed marker at every alignment around 6 block boundaries x gaps to the real marker "
           "(0 = immediately followed); marker inside the binary; white-space after the marker; unpacked binaries; large random "
-          "sizes; the real CLI executable packed and started as a child process with 9 command lines (none, unknown words, flags, "
+          "sizes; sequences (target already exists: earlier pack of a bigger/equal/smaller project onto another binary, unrelated larger file "
+          "ending in a zip end record, restrictive mode) compared byte by byte with a fresh pack, executable bit, run; the real CLI executable packed and started as a child process with 9 command lines (none, unknown words, flags, "
           "every tool name) x 2 trees: entry must run with its exit code and nothing else printed; 6 project trees (nested dirs, empty file, all byte values, files containing the marker, 120 kB archive, 40 files). "
           "Non-trivial = the marker does not lie inside the first read (n+|marker| > bufSize) or bytes were planted or white-space follows."),
     exhaustive="all source-binary sizes from 0 to 3 buffer lengths (more than two periods of every stride of the scanner, before and after the repair) with three fillers",
